@@ -71,6 +71,12 @@ def mk_recs(eng, shape, tag=""):
     return recs
 
 
+def wide_recs(n):
+    """n fixed records (pairwise different CURIE prefixes and URI prefixes, none a prefix of another) that accompany the
+    symbolic ones in 'wide' jobs: behaviour that only changes beyond a number of records shows there."""
+    return [Rec(f"w{i:02d}", f"https://w.example.org/{i:02d}/", [], []) for i in range(n)]
+
+
 def all_p(recs):
     return [x for r in recs for x in r.all_p]
 
@@ -217,6 +223,7 @@ def fixture(eng, params, prefixes_without_delim=True, warm=None):
     recs = mk_recs(eng, params["shape"])
     for r, pat in zip(recs, params.get("patterns") or []):
         r.pattern = pat         # a concrete regular expression for the record's local identifiers (or None)
+    recs = recs + wide_recs(params.get("wide", 0))
     assume_strict(eng, recs)
     delim = get_delim(eng, params.get("symdelim", False), recs, no_delim_in_prefixes=False)
     if params.get("built") == "merge":
